@@ -411,9 +411,12 @@ def oracle(a, o):
     if w.get("n") is not None:
         n_req = w["n"]
     else:
-        dur_ps = w["dur"]        # as many multiples of the stored interval as fit before the duration
-        lo, hi = cdiv(math.floor(dur_ps), dt), cdiv(math.ceil(dur_ps), dt)
-        n_req = n if lo <= n <= hi else hi
+        # the duration is stored in whole picoseconds through the TimeArray constructor (C01: a nearest integer
+        # to the float64 product with the unit); then: as many multiples of the stored interval as fit before it
+        dur_ps = w["dur"]
+        if abs(Fraction(ax["dur"]) - dur_ps) > Fraction(1, 2) + abs(dur_ps) * Fraction(1, 2 ** 52):
+            return fail("duration", "stored duration %d ps, requested %s ps" % (ax["dur"], dur_ps), ax)
+        n_req = max(0, cdiv(ax["dur"], dt))
     if n != n_req:
         return fail("count", "%d samples instead of %d" % (n, n_req), ax)
     # 5. interval, rate and duration describe that axis
